@@ -1,18 +1,32 @@
 import SyslModel.Core.Proto
 import SyslModel.Ints.Model
+import SyslModel.Ints.Stmts
 
 namespace SyslModel.Ints
 open Lean (Json)
 open SyslModel.Proto
+
+/-- a statement tree as the harness writes it: {k: call|ret|action|block|alt, app, ep, body, alts} -/
+partial def stmtOf (j : Json) : Stmt :=
+  match strD j "k" with
+  | "call" => .call ⟨strD j "app", strD j "ep"⟩
+  | "ret" => .ret
+  | "block" => .block ((arrD j "body").map stmtOf)
+  | "alt" => .alt ((arrD j "alts").map fun a => (asArr a).map stmtOf)
+  | _ => .action
 
 def cfgOf (j : Json) : Cfg :=
   { apps := (arrD j "apps").map (fun a =>
       { name := strD a "name", human := boolD a "human",
         eps := (arrD a "eps").map (fun e =>
           { name := strD e "name", hidden := boolD e "hidden",
-            calls := (arrD e "calls").map (fun k => match asArr k with
-              | [x, y] => ⟨asStr x, asStr y⟩
-              | _ => ⟨"", ""⟩) }) })
+            -- the statement tree when it is given (the calls are then the model's own flattening of it),
+            -- else a list of calls
+            calls := match arr? e "stmts" with
+              | some ss => flatL (ss.toList.map stmtOf)
+              | none => (arrD e "calls").map (fun k => match asArr k with
+                | [x, y] => ⟨asStr x, asStr y⟩
+                | _ => ⟨"", ""⟩) }) })
     seeds := strList j "seeds"
     excludes := strList j "excludes"
     passthru := strList j "passthru" }
